@@ -94,6 +94,8 @@ class NanoAddrDecoder(IAddrDecoder):
         AddrDecUtils.ValidateLength(addr_dec_bytes,
                                     Ed25519Blake2bPublicKey.CompressedLength() + Blake2b40.DigestSize()
                                     + len(NanoAddrConst.PAYLOAD_PAD_DEC) - 1)
+        # Validate padding (the bits in front of the key shall be zero, as the encoder writes them)
+        AddrDecUtils.ValidateAndRemovePrefix(addr_dec_bytes, NanoAddrConst.PAYLOAD_PAD_DEC)
 
         # Get back checksum and public key bytes
         pub_key_bytes, checksum_bytes = AddrDecUtils.SplitPartsByChecksum(
